@@ -267,6 +267,37 @@ def random_schedule(prog, rnd, nthreads, nreq, ncodes, nopts, nenvs, p_fail=0.15
     return labs
 
 
+def alias_schedule(prog):
+    """Thread 0 (first load of class 0) completes a request; thread 1 (second
+    load: equal code object) is stopped right before it reads the cache; the
+    first load dies; thread 1 reads."""
+    s = MState()
+    labs = [('S', 0, 0, 0, 0, 0)]
+    s, _ = m_step(prog, s, ('S', 0, 0, 0, 0))
+    for _ in range(200):
+        if 0 not in s.thr:
+            break
+        r = m_step(prog, s, ('T', 0))
+        if r is None:
+            return None
+        s = r[0]
+        labs.append(('T', 0))
+    labs.append(('S', 1, 0, 0, 1, 1))
+    s, _ = m_step(prog, s, ('S', 1, 0, 0, 1))
+    for _ in range(200):
+        if 1 not in s.thr:
+            return None
+        cont = s.thr[1][1]
+        if cont and cont[0] == 'IGet':
+            return labs + [('G', 0), ('T', 1)]
+        r = m_step(prog, s, ('T', 1))
+        if r is None:
+            return None
+        s = r[0]
+        labs.append(('T', 1))
+    return None
+
+
 def coq_label(l):
     if l[0] == 'S':
         return 'LStart %d (%d, %d) %d' % (l[1], l[2], l[3], l[4])
@@ -640,7 +671,7 @@ def observe_tt(world, res, opt_marker=True):
     return (a[3], a[4] if isinstance(a[4], int) else 998, world.env_of(cval, a[1], a[2]))
 
 
-def run_schedule(labels, tr_cls, world, mk_ctx, observe, alias_gc=None, step_timeout=20.0):
+def run_schedule(labels, tr_cls, world, mk_ctx, observe, alias_gc=None, step_timeout=6.0):
     """Forces `labels` on the real transpiler.  Returns the observation:
     events, completed requests, transform log, errors."""
     sched = Sched(timeout=step_timeout)
@@ -668,6 +699,7 @@ def run_schedule(labels, tr_cls, world, mk_ctx, observe, alias_gc=None, step_tim
             if item is None:
                 return
             c, o, e, load = item
+            fn = res = None
             try:
                 try:
                     fn = world.fn(c, e, load)
@@ -690,6 +722,7 @@ def run_schedule(labels, tr_cls, world, mk_ctx, observe, alias_gc=None, step_tim
                     ex.__traceback__ = None
                     del ex
             finally:
+                fn = res = None      # a failed request must not keep its function alive
                 with sched.cv:
                     sched.finished[tid] += 1
                     sched.cv.notify_all()
@@ -756,7 +789,8 @@ def judge_obs(labels, obs):
     of (what, detail)."""
     bad = []
     if obs['stuck']:
-        bad.append(('scheduler could not force the schedule', obs['stuck']))
+        return [('the schedule cannot be forced on the real code (its sync points differ from the extracted skeleton)',
+                 obs['stuck'])]
     for tid, tname, msg in obs['errors']:
         bad.append(('a conversion request died of %s' % tname, 'thread %d: %s' % (tid, msg)))
     for (c, o, e, oc, oo, serial, oe) in obs['outs']:
@@ -952,7 +986,7 @@ def _check(run, tmp):
 
     # 3a. container correspondence
     corr_bad = None
-    ccases = container_cases(rnd, 400 if thorough else 120, tmp)
+    ccases = container_cases(rnd, 450 if thorough else 120, tmp)
     run.count(len(ccases))
     if tie_msg is None:
         ok, bad = eval_cases('container', 'c', ccases)
@@ -965,7 +999,7 @@ def _check(run, tmp):
     world = World(tmp)
     mcases = []
     sched_records = []
-    nsched = (260 if thorough else 70) if prog is not None else 0
+    nsched = (1500 if thorough else 70) if prog is not None else 0
     for idx in range(nsched):
         if idx < nsched // 4:
             nthreads = 1
@@ -987,7 +1021,15 @@ def _check(run, tmp):
                                     'schedule': [list(l) for l in labels],
                                     'events_observed': pretty_events(obs['events'])}, None))
     if prog is not None and corr_bad is None:
-        ok, bad = eval_cases('machine', 'm', mcases, timeout=600)
+        ok, bad = True, []
+        from concurrent.futures import ThreadPoolExecutor
+        shards = [mcases[i:i + 300] for i in range(0, len(mcases), 300)]
+        with ThreadPoolExecutor(max_workers=4) as ex:
+            for okk, b in ex.map(lambda ic: eval_cases('machine%d' % ic[0], 'm', ic[1], timeout=600), enumerate(shards)):
+                if not okk:
+                    ok, bad = False, b
+                elif ok:
+                    bad = bad + b
         if not ok:
             corr_bad = bad
         elif bad:
@@ -997,8 +1039,8 @@ def _check(run, tmp):
         else:
             run.extra['traces_validated_against_impl'] = len(mcases)
     # 3c. the known finding, reproduced on the real code by the schedule of the `_refuted` theorem
-    alias_labels = [('S', 0, 0, 0, 0, 0)] + [('T', 0)] * 9 + [('S', 1, 0, 0, 1, 1), ('T', 1), ('G', 0), ('T', 1)]
-    if prog is not None:
+    alias_labels = alias_schedule(prog) if prog is not None else None
+    if alias_labels:
         world.clear()
         obs = run_schedule(alias_labels, TT, world, mk_ctx, observe_tt, alias_gc=(0, 0))
         run.count()
@@ -1017,7 +1059,7 @@ def _check(run, tmp):
     failures += oracle(run, rnd, tmp, TT, MT, thorough)
     # 5. search, if the discipline or the tie broke
     searched = ''
-    if prog is not None and not dc_ok and not [f for f in failures if f[2] is None]:
+    if prog is not None and not dc_ok:
         labels, why = search_violation(prog)
         searched = 'machine search found no violating schedule of 2-3 threads'
         if labels:
@@ -1027,7 +1069,7 @@ def _check(run, tmp):
             bad = judge_obs(labels, obs)
             searched = 'machine schedule %s (%s; Coq machine verdict %s) ' % ([coq_label(l) for l in labels], why, v)
             if bad:
-                failures.append((bad[0][0], {'what': bad[0][0], 'detail': bad[0][1], 'kind': 'forced-schedule',
+                failures.append((bad[0][0], {'what': bad[0][0], 'detail': bad[0][1], 'kind': 'forced-schedule-min',
                                              'transpiler': 'TT', 'found_by': 'search of the machine for a schedule violating: ' + why,
                                              'coq_machine_verdict(errors,max_transforms,coherent)': v,
                                              'schedule': [list(l) for l in labels],
@@ -1036,10 +1078,13 @@ def _check(run, tmp):
                 searched += 'did not reproduce on the real code'
     # verdict
     seen = set()
+    order = {'forced-schedule-min': -1, 'forced-schedule': 0, 'overlap-probe': 1, 'preemption-sweep': 1, 'sequential-history': 2, 'redefinition': 2}
+    failures.sort(key=lambda f: order.get(f[1].get('kind'), 5))
     for title, rep, cls in failures:
-        if (title, cls) in seen:
+        norm = re.sub(r'\d+', 'N', title)
+        if (norm, cls) in seen:
             continue
-        seen.add((title, cls))
+        seen.add((norm, cls))
         rep = dict(rep)
         rep['command'] = 'cd /verif && VERIF_REPO=%s bin/check C10 --replay <this file>' % vlib.REPO
         run.violation(title, rep, found_input=True, classify=cls)
@@ -1114,6 +1159,83 @@ def overlap_probe(TT, world, mk_ctx, nwaiters=2, hold=0.25):
     return bad
 
 
+def preemption_sweep(TT, world, mk_ctx, block_wait=0.15, max_points=80):
+    """Model-independent forced interleavings at *line* granularity: thread A
+    is stopped before the n-th line of PyToPy.transform_function (every n),
+    thread B then makes a request for the same key and runs until it returns or
+    blocks; A resumes.  -> (what, detail, n) list"""
+    from malt.pyct import transpiler
+    target = transpiler.PyToPy.transform_function.__code__
+    extra = getattr(transpiler.PyToPy, '_cached_factory', None)
+    targets = {target} | ({extra.__code__} if extra is not None else set())
+
+    def one(n):
+        tr = TT()
+        state = {'lines': 0}
+        parked = threading.Event()
+        resume = threading.Event()
+        res = [None, None]
+
+        def local(frame, event, arg):
+            if event == 'line':
+                state['lines'] += 1
+                if state['lines'] == n:
+                    parked.set()
+                    resume.wait(20)
+            return local
+
+        def tracer(frame, event, arg):
+            if frame.f_code in targets:
+                return local
+            return None
+
+        def run_a():
+            sys.settrace(tracer)
+            try:
+                res[0] = observe_tt(world, tr.transform_function(world.fn(0, 0), mk_ctx(0, 1)))
+            except Exception as ex:   # noqa
+                res[0] = 'ERR %s: %s' % (type(ex).__name__, ex)
+            finally:
+                sys.settrace(None)
+                parked.set()
+
+        def run_b():
+            try:
+                res[1] = observe_tt(world, tr.transform_function(world.fn(0, 1), mk_ctx(0, 1)))
+            except Exception as ex:   # noqa
+                res[1] = 'ERR %s: %s' % (type(ex).__name__, ex)
+        ta = threading.Thread(target=run_a, daemon=True)
+        tb = threading.Thread(target=run_b, daemon=True)
+        ta.start()
+        parked.wait(20)
+        reached = state['lines'] >= n and ta.is_alive()
+        if reached:
+            tb.start()
+            tb.join(block_wait)
+        resume.set()
+        ta.join(30)
+        if reached:
+            tb.join(30)
+        return reached, tr, res, state['lines']
+    bad = []
+    n = 1
+    while n <= max_points:
+        reached, tr, res, total = one(n)
+        if not reached:
+            break
+        cnt = tr.count[(0, 1)]
+        where = 'thread A stopped before its line event #%d in transform_function, thread B asked for the same key meanwhile' % n
+        if cnt != 1:
+            bad.append(('the source transformation of one (code, options) pair ran %d times' % cnt, where, n))
+        for i in (0, 1):
+            if res[i] != (0, 1, i):
+                bad.append(('a request was served the wrong function' if not str(res[i]).startswith('ERR')
+                            else 'a conversion request died of ' + str(res[i])[4:].split(':')[0],
+                            where + '; thread %s got %r' % ('AB'[i], res[i]), n))
+        n += 1
+    return bad, n - 1
+
+
 def oracle(run, rnd, tmp, TT, MT, thorough):
     failures = []
     world = World(tmp, tag='orc')
@@ -1131,12 +1253,19 @@ def oracle(run, rnd, tmp, TT, MT, thorough):
         for what, detail in overlap_probe(TT, world, mk_ctx, nwaiters=nw):
             failures.append((what, rep('overlap-probe', what, detail, waiters=nw), None))
         run.count()
+    # -- one context switch at every line of transform_function
+    world.clear()
+    sweep_bad, npoints = preemption_sweep(TT, world, mk_ctx)
+    run.count(npoints)
+    run.extra['preemption_points_swept'] = npoints
+    for what, detail, n in sweep_bad:
+        failures.append((what, rep('preemption-sweep', what, detail, point=n), None))
     # -- sequential histories: sharing, aliasing, redefinition, collection
-    for what, detail, hist in sequential_histories(rnd, TT, world, mk_ctx, 60 if thorough else 20):
+    for what, detail, hist in sequential_histories(rnd, TT, world, mk_ctx, 400 if thorough else 20):
         failures.append((what, rep('sequential-history', what, detail, history=hist), None))
-    run.count(60 if thorough else 20)
+    run.count(400 if thorough else 20)
     # -- free running threads on the test transpiler
-    rounds = 40 if thorough else 14
+    rounds = 200 if thorough else 14
     sizes = [1, 2, 3, 4, 8, 16, 32]
     for r in range(rounds):
         nthreads = sizes[r % len(sizes)] if r < 2 * len(sizes) else rnd.randint(1, 32)
@@ -1149,7 +1278,7 @@ def oracle(run, rnd, tmp, TT, MT, thorough):
                            fail_rate=0.1 if r % 3 == 2 else 0.0)
         run.count(nthreads * nreq)
         for (k, n) in tr.count.items():
-            if n > 1 and not (r % 3 == 2):
+            if n > 1:
                 bad.append(('the source transformation of one (code, options) pair ran %d times' % n,
                             'free-running: key (class %s, options %s), %d threads' % (k[0], k[1], nthreads), None))
         for what, detail, req in bad:
@@ -1255,7 +1384,7 @@ def malt_oracle(run, rnd, tmp, MT, thorough):
                                   'request': list(k), 'got': repr(r), 'original': repr(fn(4))}, None))
             ref_cache[k] = r
         return ref_cache[k]
-    rounds = 10 if thorough else 4
+    rounds = 40 if thorough else 4
     sizes = [1, 4, 8, 32, 2, 16, 3, 5, 12, 24]
     for r in range(rounds):
         tr = MT()
@@ -1298,8 +1427,9 @@ def malt_oracle(run, rnd, tmp, MT, thorough):
                                  {'kind': 'to_graph', 'transform_ast_calls_after_two_recursive_requests': n_rec,
                                   'after_one_more_nonrecursive_request': n_nonrec, 'expected': [1, 2]}, None))
             # allowlist cache: an entry made under options A must not decide for options B
-            o_noconv = converter.ConversionOptions(recursive=False, user_requested=False, internal_convert_user_code=False)
-            o_conv = converter.ConversionOptions(recursive=True, user_requested=True)
+            o_noconv = converter.ConversionOptions(recursive=False, user_requested=False, internal_convert_user_code=False,
+                                                  optional_features=None)
+            o_conv = converter.ConversionOptions(recursive=True, user_requested=True, optional_features=None)
             h = world.fn(1, 2)
             n0 = len(calls)
             r_a = api.converted_call(h, (4,), None, options=o_noconv)
@@ -1346,11 +1476,19 @@ def replay(path):
         def mk_ctx(c, o):
             return UserCtx(o, cls=c)
         world = World(tmp)
-        if kind in ('forced-schedule', 'alias-gc'):
+        if kind == 'preemption-sweep':
+            bad, _ = preemption_sweep(TT, world, mk_ctx)
+            for what, detail, n in bad:
+                print('REPRODUCED:', what, '--', detail)
+            return 1 if bad else 0
+        if kind in ('forced-schedule', 'forced-schedule-min', 'alias-gc'):
             labels = [tuple(l) for l in rep['schedule']]
             obs = run_schedule(labels, TT, world, mk_ctx, observe_tt, alias_gc=(0, 0) if kind == 'alias-gc' else None)
             print('events on the real code now:', pretty_events(obs['events']))
             print('errors:', obs['errors'], 'transform log:', obs['tlog'], 'completed:', obs['outs'])
+            if obs['stuck']:
+                print('NOT REPRODUCED: the schedule does not fit the cache-access code of this tree (%s)' % obs['stuck'])
+                return 0
             bad = judge_obs(labels, obs)
             for what, detail in bad:
                 print('REPRODUCED:', what, '--', detail)
